@@ -5,6 +5,18 @@ func (op *FsTxn) preCommit() {
 	op.Atxn.PreCommit()
 }
 
+// The cached copies of the transaction's inodes (and the name caches that
+// hang off them) may have been modified in place; when the transaction does
+// not commit they must not survive it.  Called with the inodes still locked.
+func (op *FsTxn) forgetInodes() {
+	for inum := range op.inodes {
+		cslot := op.Fs.Icache.LookupSlot(uint64(inum))
+		if cslot != nil {
+			cslot.Obj = nil
+		}
+	}
+}
+
 func (op *FsTxn) postCommit() {
 	op.releaseInodes()
 	op.Atxn.PostCommit()
@@ -51,6 +63,7 @@ func (op *FsTxn) CommitFh() bool {
 // buffers that need to be written to log. So, call commit.
 func (op *FsTxn) Abort() bool {
 	verifEvent("abort", op, 0)
+	op.forgetInodes()
 	op.releaseInodes()
 	op.Atxn.PostAbort()
 	verifEvent("abort-end", op, 0)
